@@ -760,6 +760,7 @@ func (w *WalletManager) NewAddress(addrClass uint16) (string, error) {
 	}
 
 	var address string
+	var issued []*keystore.ManagedAddress
 	err := mwdb.Update(w.db, func(tx mwdb.DBTransaction) error {
 		mas, err := w.ksmgr.NextAddresses(tx, w.chainFetcher.CheckScriptHashUsed, false, 1, w.config.Wallet.Settings.AddressGapLimit, addrClass)
 		if err != nil {
@@ -768,6 +769,7 @@ func (w *WalletManager) NewAddress(addrClass uint16) (string, error) {
 			})
 			return err
 		}
+		issued = mas
 		switch addrClass {
 		case massutil.AddressClassWitnessV0:
 			address = mas[0].String()
@@ -790,12 +792,8 @@ func (w *WalletManager) NewAddress(addrClass uint16) (string, error) {
 	})
 	if err != nil {
 		// NextAddresses has already added the address to the cached keystore while the
-		// transaction was open: reload the keystore from the store, which was not changed
-		w.ksmgr.RemoveCachedKeystore(am.Name())
-		mwdb.View(w.db, func(rtx mwdb.ReadTransaction) error {
-			w.ksmgr.UpdateManagedKeystores(rtx, am.Name())
-			return nil
-		})
+		// transaction was open: take it out again (no database access: this cannot fail)
+		w.ksmgr.ForgetAddresses(am.Name(), issued)
 		return "", err
 	}
 	return address, nil
